@@ -146,7 +146,8 @@ func (s *ethService) GetLogs(ctx context.Context, q filterArgs) ([]*ethtypes.Log
 	var logs []*ethtypes.Log
 	for b := from.Int64(); b <= to.Int64(); b++ {
 		for i, nonce := range s.n.sc.Events[b] {
-			data, err := evt.Inputs.Pack(senderAddr, []byte(recipient()), common.Address{}, "eth", big.NewInt(1000+nonce), big.NewInt(nonce))
+			ef := EventOf(nonce)
+			data, err := evt.Inputs.Pack(ef.Sender, []byte(ef.Recipient), ef.Token, ef.Symbol, ef.Amount, big.NewInt(nonce))
 			if err != nil {
 				panic(err)
 			}
@@ -193,6 +194,24 @@ func recipient() string {
 	return sdk.AccAddress([]byte("verif-recipient-addr")).String()
 }
 
+// EventFields are the fields of the LogLock event the fake node emits for a nonce: they differ from one nonce to the
+// next, so that a claim can be matched against the event it stands for.
+type EventFields struct {
+	Sender, Token common.Address
+	Symbol        string
+	Amount        *big.Int
+	Recipient     string
+}
+
+func EventOf(nonce int64) EventFields {
+	ef := EventFields{Sender: common.BigToAddress(big.NewInt(0xcc + nonce%3)), Symbol: "eth", Amount: big.NewInt(1000 + nonce), Recipient: recipient()}
+	if nonce%2 == 1 {
+		ef.Token, ef.Symbol = common.HexToAddress("0x00000000000000000000000000000000000000dd"), "USDC"
+		ef.Recipient = sdk.AccAddress([]byte("verif-recipient-two!")).String()
+	}
+	return ef
+}
+
 // ---- fake Tendermint client ---------------------------------------------------------------------------
 
 type fakeTM struct {
@@ -221,6 +240,9 @@ func (f *fakeTM) record(txBytes tmtypes.Tx) {
 	for _, m := range t.GetMsgs() {
 		if c, ok := m.(*ethbridgetypes.MsgCreateEthBridgeClaim); ok {
 			f.n.tr.line("S %d", c.EthBridgeClaim.Nonce)
+			k := c.EthBridgeClaim
+			f.n.tr.line("C %d %d %s %s %s %s %s %d %s %s", k.EthereumChainId, k.Nonce, k.EthereumSender, k.TokenContractAddress, k.Symbol, k.Amount.String(), k.CosmosReceiver,
+				int32(k.ClaimType), k.BridgeContractAddress, k.ValidatorAddress)
 		} else {
 			f.n.tr.line("B other-message %T", m)
 		}
